@@ -26,12 +26,25 @@ inline Parked parked(World *w, int id) {
     }
 }
 
+// a coroutine type that knows nothing about the library: starts eagerly, no ready queue is installed for it
+struct Foreign {
+    struct promise_type {
+        Foreign get_return_object() { return Foreign{std::coroutine_handle<promise_type>::from_promise(*this)}; }
+        std::suspend_never initial_suspend() noexcept { return {}; }
+        std::suspend_always final_suspend() noexcept { return {}; }
+        void return_void() {}
+        void unhandled_exception() { std::terminate(); }
+    };
+    std::coroutine_handle<promise_type> h;
+};
 struct Op { uint8_t code, a, b, c; };
-struct Prog { bool coro_mode; std::vector<Op> ops; };
+struct Prog { bool coro_mode; bool foreign = false; std::vector<Op> ops; };   // foreign: the driver is a coroutine of a type that does not run under the library's ready queue
 
 inline Prog decode(hz::Reader &r) {
     Prog p;
-    p.coro_mode = r.flag();
+    uint8_t hb = r.u8();
+    p.coro_mode = hb & 1;
+    p.foreign = p.coro_mode && ((hb >> 1) % 3) == 2;
     unsigned n = 0;
     while (r.more() && n < 64) {
         Op o; o.code = (uint8_t)r.mod(13); o.a = r.u8(); o.b = r.u8(); o.c = r.u8();
@@ -44,7 +57,7 @@ static const char *opn[] = {"new sp(h)", "sp<<h", "sp<<sp", "sp=move(sp)", "move
                             "typed round-trip", "typed co_await", "co_await sp that also carries the awaiting coroutine (self)"};
 inline std::string describe(const Prog &p) {
     hz::Desc d;
-    d << (p.coro_mode ? "coroutine mode" : "normal mode") << ", " << (unsigned)p.ops.size() << " ops:";
+    d << (p.foreign ? "coroutine mode with a driver coroutine of a foreign type (no ready queue active while it runs)" : p.coro_mode ? "coroutine mode" : "normal mode") << ", " << (unsigned)p.ops.size() << " ops:";
     for (auto &o : p.ops) d << " " << opn[o.code] << "(" << (unsigned)o.a << "," << (unsigned)o.b << ")";
     return d.s;
 }
@@ -170,7 +183,8 @@ inline void apply(Run &R, const Op &o) {
     }
 }
 
-inline cocls::async<void> driver(Run &R, const Prog &p) {
+template<class Ret, bool foreign>
+Ret driver_t(Run &R, const Prog &p) {
     for (size_t i = 0; i < p.ops.size(); i++) {
         Op o = p.ops[i];
         size_t n = R.pool.size();
@@ -212,10 +226,15 @@ inline cocls::async<void> driver(Run &R, const Prog &p) {
             apply(R, o);
         }
         R.check_sizes(opn[o.code]);
+        // a foreign driver runs without a ready queue (unless it was itself resumed from a nested one): whatever it releases runs at once
+        if constexpr (foreign) { if (!cocls::coro_queue::is_active()) R.check_counts(opn[o.code]); }
     }
-    co_await cocls::pause();
-    R.check_counts("driver pause at the end");
+    if constexpr (!foreign) {
+        co_await cocls::pause();
+        R.check_counts("driver pause at the end");
+    }
 }
+inline cocls::async<void> driver(Run &R, const Prog &p) { return driver_t<cocls::async<void>, false>(R, p); }
 
 inline void run(hz::Reader &r) {
     Prog p = decode(r);
@@ -226,7 +245,13 @@ inline void run(hz::Reader &r) {
         R.coro_mode = p.coro_mode;
         R.tasks.reserve(MAXH);
         for (int i = 0; i < MAXH; i++) R.tasks.push_back(parked(&R.w, i));
-        if (p.coro_mode) {
+        if (p.foreign) {
+            Foreign d = driver_t<Foreign, true>(R, p);
+            HZ_CHECK(d.h.done(), "driver coroutine (foreign type) did not finish: a co_await on a suspend point never resumed it");
+            HZ_CHECK(!cocls::coro_queue::is_active(), "coroutine queue still active after the foreign driver returned");
+            R.check_counts("foreign driver finished");
+            d.h.destroy();
+        } else if (p.coro_mode) {
             cocls::future<void> f = driver(R, p).start();
             HZ_CHECK(f.ready(), "driver coroutine did not finish");
         } else {
@@ -249,23 +274,23 @@ inline void run(hz::Reader &r) {
     }
     hz::set_class(maxheld <= 3 ? 0 : maxheld <= 6 ? 1 : maxheld <= 12 ? 2 : maxheld <= 24 ? 3 : 4);
     hz::set_nontrivial(heap);
-    hz::count(0, maxheld);
+    hz::count(0, maxheld); hz::count(1, p.foreign ? 1 : 0);
 }
 
 static const char *const class_names[] = {"max<=3 (inline)", "max 4..6", "max 7..12", "max 13..24", "max>24"};
-static const char *const counter_names[] = {"sum_max_handles"};
+static const char *const counter_names[] = {"sum_max_handles", "histories_with_foreign_driver"};
 
 } // namespace c06
 
 namespace hz {
 static const Info I = {
     "C06", 1, 257, 60000, false, true,
-    "stateful byte-decoded histories (rapidcheck): header {normal | coroutine mode}, up to 64 ops over a pool of <=6 suspend points and <=40 parked coroutine handles: "
+    "stateful byte-decoded histories (rapidcheck): header {normal | coroutine mode | coroutine mode with a driver of a foreign coroutine type, i.e. co_await on suspend points while no ready queue is active}, up to 64 ops over a pool of <=6 suspend points and <=40 parked coroutine handles: "
     "construct(h), <<h, <<sp, move-assign (merge), move-construct, pop (handle returns to a loose pool and may be re-added), clear, destroy, co_await from the driver coroutine, "
     "burst (steered across 3->4, 6->7, 12->13, 24->25), typed suspend_point<int> round-trip and co_await. Reference model = multiset of handles per object; after every op size()/empty() "
     "agree with the model and (normal mode: immediately; coroutine mode: at the next co_await/pause) every released handle was resumed exactly once; moved-from objects resume nothing; "
     "typed value == supplied value; allocation balance 0; ASan. Non-trivial = some object held >=4 handles (heap storage); distinct = hash(decoded history).",
-    c06::class_names, 5, c06::counter_names, 1};
+    c06::class_names, 5, c06::counter_names, 2};
 const Info &info() { return I; }
 void run_case(Reader &r) { c06::run(r); }
 std::string describe(Reader &r) { return c06::describe(c06::decode(r)); }
